@@ -526,3 +526,27 @@ def perturb(kind):
     the correspondence: the run must then end with a correspondence VIOLATION)"""
     import os
     return os.environ.get("VERIF_PERTURB") == kind
+
+
+def selection_predicates(d):
+    """on one dump of the implementation: GetRankers is the top GetBpCount() of the stored BP
+    ranking; the voting reward winner for the draw r is the voter whose cumulative voting power
+    interval (buckets 0..70 in order, entries in bucket order) contains r"""
+    bad = []
+    n = int(d["pcur"][0])
+    want = [c for c, _ in (d["res"][0]["l"] or [])][:max(n, 0)]
+    if (d.get("rankers") or []) != want:
+        bad.append(("GetRankers is not the top BPCOUNT of the stored ranking", {"rankers": d.get("rankers"), "expected": want}))
+    total = int(d["mem"]["total"])
+    for p in d.get("picks") or []:
+        if p["r"] == "":
+            continue
+        r, acc, win = int(p["r"]), 0, None
+        for b in sorted(d["mem"]["b"] or [], key=lambda b: b["i"]):
+            for e in b["l"]:
+                acc += int(e["pw"])
+                if win is None and r < acc:
+                    win = e["addr"]
+        if total > 0 and 0 <= r < total and win is not None and p["w"] != win:
+            bad.append(("voting reward winner is not the voter whose power interval contains the draw", {"seed": p["seed"], "r": p["r"], "winner": p["w"], "expected": win}))
+    return bad
